@@ -131,6 +131,8 @@ GUARDS = [
      [("port has no dataflow type", [[("self.hugr.port_type(ANY_) is not None", False)]])], [], "a non-dataflow port used as a wire"),
     ("hugr.build.tracked_dfg.TrackedDfg.tracked_wire", "IndexError",
      [("index untracked or out of range", [[("self.tracked[L_i] is not None", False)]])], [], "an integer that names no tracked wire"),
+    ("hugr.ops._sig_port_type", "ValueError", [("the state-order port", [[("L_p.offset == -1", True)], [("-1 == L_p.offset", True)], [("L_p.offset < 0", True)]])], [],
+     "the order port (offset -1) used as a typed wire"),
     ("hugr.ops._check_complete", "IncompleteOp", [("value not set", [[("L_v is not None", False)]])], [], "an incomplete operation is serialized"),
     ("hugr.build.dfg.DfBase._fn_sig", "ValueError",
      [("a non-function port", [[("isinstance(ANY_.port_kind(ANY_), tys.FunctionKind)", False)]])], [], "calling / loading something whose port 0 is not a function"),
